@@ -147,6 +147,7 @@ func unhx(s string) []byte {
 // run a decoder on an exact-capacity copy
 func runDec(d decoder, b []byte) callRes {
 	in := exact(b)
+	poolAdd(b)
 	setCase("dec " + d.name + " " + hx(b))
 	return guard(func() (string, error) { return d.f(in) })
 }
@@ -168,6 +169,7 @@ func encodeMsgRes(m *message.IKEMessage) callRes {
 		if err != nil {
 			return "", err
 		}
+		poolAdd(b)
 		return hx(b), nil
 	})
 }
